@@ -92,7 +92,7 @@ Example avg_guard_nonvacuous :
              (avg_numpy 1 avg_witness_time avg_witness_values [(0, 2); (1, 3); (3, 3)]) = true.
 Proof. vm_compute. split; reflexivity. Qed.
 
-(* full statement, NOT proved (only tested by the correspondence run): under the guard the variants agree *)
+(* the full statement; proved since round 2 (ProofsAvg2.avg_variants_equal, Props.C20_average_variants_equal) *)
 Definition C20_average_variants_equal_statement : Prop :=
   forall nch time values ws, Sorted Qle time -> length values = length time ->
     Forall (fun row => length row = nch) values ->
